@@ -362,6 +362,7 @@ SyncKilledStep ==
            okC == \A i \in loadable : LoggedC(alts[i]) \in {C, presave, r.C, autosaved}
            newpar == ParMerge(par, Ev.state)
            c06 == \A i \in loadable : ParityValid(LoggedC(alts[i]), newpar) /\ MapSane(LoggedC(alts[i]))
+           addonly == \A d \in D : Gone(L0, fs, d) = {}
        IN /\ Follow(Ev.state, par)
           /\ diag' = IF okC THEN <<>> ELSE <<"SyncKilled", l, DiffC(presave, newc)>>
           /\ clean' = FALSE
@@ -372,7 +373,10 @@ SyncKilledStep ==
           /\ pviol' = (IF Ev.state.sha.f # sha.f THEN <<<<"C07", "killed-sync-changed-data", <<>>>>>> ELSE <<>>) \o
                       (IF partial # {} THEN <<<<"C09", "content-copy-partial-after-kill", partial>>>> ELSE <<>>) \o
                       (IF loadable = {} THEN <<<<"C07", "no-content-copy-loads-after-kill", <<>>>>>> ELSE <<>>) \o
-                      (IF ~dmg /\ ~c06 THEN <<<<"C07", IF "autosave_at" \in DOMAIN a /\ newc = autosaved /\ newc # r.C
+                      \* "when the interrupted sync had only additions pending, every file synced before stays recoverable": with
+                      \* deletions pending the parity files may already be cut to the new size while the content on disk still is
+                      \* the old one (sync.c resizes the parity before the first save); the next sync then refuses or completes
+                      (IF ~dmg /\ ~c06 /\ addonly THEN <<<<"C07", IF "autosave_at" \in DOMAIN a /\ newc = autosaved /\ newc # r.C
                                                      THEN "F5-autosave-before-parity-writers-drained"
                                                      ELSE "synced-stripes-without-valid-parity-after-kill", a.rules>>>> ELSE <<>>)
           /\ afterfix' = FALSE
@@ -422,7 +426,10 @@ CheckStep ==
           \* a full check without any error ends a damage episode
           /\ dmg' = (dmg /\ ~(~a.audit /\ Ev.out.rc = 0 /\ PresentOf(a) = Levels /\ a.range.bstart = 0 /\ a.range.bcount = 0
                               /\ "flt" \notin DOMAIN a))
-          /\ UNCHANGED <<clean, snap, ghost, afterfix>>
+          \* a full check without any error on an array without pending changes (re)establishes the hypothesis of C01
+          /\ clean' = (clean \/ (~a.audit /\ Ev.out.rc = 0 /\ PresentOf(a) = Levels /\ a.range.bstart = 0 /\ a.range.bcount = 0
+                                 /\ "flt" \notin DOMAIN a /\ CleanSynced(C, fs)))
+          /\ UNCHANGED <<snap, ghost, afterfix>>
 
 FixStep ==
     /\ IsEvent("Fix")
